@@ -17,11 +17,12 @@ use lexical_core::{
 mod guard;
 #[path = "../comp.rs"]
 mod comp;
+use comp::op_pn;
 
 // ---------------------------------------------------------------------------------------
 // helpers
 
-fn unhex(s: &str) -> Vec<u8> {
+pub fn unhex(s: &str) -> Vec<u8> {
     if s == "-" || s == "_" {
         return Vec::new();
     }
@@ -37,7 +38,7 @@ fn unhex(s: &str) -> Vec<u8> {
     v
 }
 
-fn hex(b: &[u8]) -> String {
+pub fn hex(b: &[u8]) -> String {
     if b.is_empty() {
         return "_".to_string();
     }
@@ -56,7 +57,7 @@ fn opt_str(s: &str) -> Option<&'static [u8]> {
     }
 }
 
-fn err_line<E: Debug>(e: &E) -> String {
+pub fn err_line<E: Debug>(e: &E) -> String {
     // Debug of lexical's Error is `Kind(index)` or `Kind`.
     let d = format!("{:?}", e);
     if let Some(p) = d.find('(') {
@@ -90,6 +91,8 @@ pub trait FloatTy:
 {
     fn bits_hex(self) -> String;
     fn from_bits_hex(s: &str) -> Self;
+    /// parse results: every NaN is printed as `nan`
+    fn parsed_hex(self) -> String;
 }
 impl FloatTy for f32 {
     fn bits_hex(self) -> String {
@@ -101,6 +104,9 @@ impl FloatTy for f32 {
     fn from_bits_hex(s: &str) -> Self {
         f32::from_bits(u32::from_str_radix(s, 16).unwrap())
     }
+    fn parsed_hex(self) -> String {
+        if self.is_nan() { "nan".to_string() } else { self.bits_hex() }
+    }
 }
 impl FloatTy for f64 {
     fn bits_hex(self) -> String {
@@ -111,6 +117,9 @@ impl FloatTy for f64 {
     }
     fn from_bits_hex(s: &str) -> Self {
         f64::from_bits(u64::from_str_radix(s, 16).unwrap())
+    }
+    fn parsed_hex(self) -> String {
+        if self.is_nan() { "nan".to_string() } else { self.bits_hex() }
     }
 }
 
@@ -171,7 +180,7 @@ fn op_wi<T: IntTy, const F: u128>(facade: bool, a: &[&str]) -> String {
     format!("ok {} {}", res, if buf.tail_intact(n, 0xAA) { "clean" } else { "dirty" })
 }
 
-fn pf_opts(a: &[&str]) -> Result<ParseFloatOptions, String> {
+pub fn pf_opts(a: &[&str]) -> Result<ParseFloatOptions, String> {
     // [lossy, exp, dp, nan, inf, infinity]
     let b = ParseFloatOptions::builder()
         .lossy(a[0] == "1")
@@ -199,7 +208,7 @@ fn op_pf<T: FloatTy, const F: u128>(facade: bool, a: &[&str]) -> String {
             lexical_core::parse_partial_with_options::<T, F>(bytes, &opts)
         };
         match r {
-            Ok((v, n)) => format!("ok {} {}", v.bits_hex(), n),
+            Ok((v, n)) => format!("ok {} {}", v.parsed_hex(), n),
             Err(e) => err_line(&e),
         }
     } else {
@@ -209,7 +218,7 @@ fn op_pf<T: FloatTy, const F: u128>(facade: bool, a: &[&str]) -> String {
             lexical_core::parse_with_options::<T, F>(bytes, &opts)
         };
         match r {
-            Ok(v) => format!("ok {} -", v.bits_hex()),
+            Ok(v) => format!("ok {} -", v.parsed_hex()),
             Err(e) => err_line(&e),
         }
     }
@@ -312,13 +321,13 @@ fn d_pf<T: FloatTy>(facade: bool, a: &[&str]) -> String {
     if a[0] == "1" {
         let r = if facade { lexical::parse_partial::<T, _>(bytes) } else { lexical_core::parse_partial::<T>(bytes) };
         match r {
-            Ok((v, n)) => format!("ok {} {}", v.bits_hex(), n),
+            Ok((v, n)) => format!("ok {} {}", v.parsed_hex(), n),
             Err(e) => err_line(&e),
         }
     } else {
         let r = if facade { lexical::parse::<T, _>(bytes) } else { lexical_core::parse::<T>(bytes) };
         match r {
-            Ok(v) => format!("ok {} -", v.bits_hex()),
+            Ok(v) => format!("ok {} -", v.parsed_hex()),
             Err(e) => err_line(&e),
         }
     }
